@@ -26,6 +26,15 @@ PRIMITIVES = frozenset(
 
 
 # ---------------------------------------------------------------------------- jitted helpers
+# Standard-library specification axioms of the primitive 63-bit integers (reached through Flocq's
+# bridge Prim2B / of_int63_equiv by the theorems of CmsLogFloat.v)
+AX_UINT63 = frozenset("Uint63." + n for n in (
+    "add_spec", "sub_spec", "mul_spec", "mulc_spec", "div_spec", "mod_spec", "lsl_spec", "lsr_spec", "land_spec",
+    "lor_spec", "lxor_spec", "eqb_correct", "eqb_refl", "ltb_spec", "leb_spec", "compare_def_spec", "of_to_Z",
+    "head0_spec", "tail0_spec", "addc_def_spec", "addcarryc_def_spec", "subc_def_spec", "subcarryc_def_spec",
+    "diveucl_def_spec", "diveucl_21_spec", "addmuldiv_def_spec"))
+
+
 class _Kernels:
     pass
 
